@@ -430,6 +430,10 @@ SPEC_FORMS['forall_int']=_form_forall_int
 
 # ================================================================================== extensions for scheduler code (Kahn loops)
 CARD=z3.Function('card',SetSort,z3.IntSort())
+IDF=z3.Function('idf',Obj,z3.IntSort())            # id() of a live object
+UNID=z3.Function('unid',z3.IntSort(),Obj)         # its inverse on the range of id()
+def id_axiom():
+  x=z3.Const('x!id',Obj); return z3.ForAll([x],UNID(IDF(x))==x,patterns=[IDF(x)])
 WIT=z3.Function('witness',SetSort,Obj)       # some member of a non-empty finite set
 
 def card_facts(S):
@@ -450,7 +454,7 @@ class Mod(Val):
 class SetList:
   """a duplicate-free Python list whose order the code does not depend on (shuffled / consumed from an arbitrary end):
   represented by its element set.  append(x) carries the obligation x not in list (so duplicate-freeness is proved, not assumed)."""
-  METHODS={'append','pop','__len__','__contains__','copy'}
+  METHODS={'append','pop','__len__','__contains__','copy','put','get','empty'}
   def handles(s,o,st): return isinstance(o,Ref) and o.cls=='setlist'
   def has_method(s,m): return m in s.METHODS
   def contains(s,ex,o,x,st,negate):
@@ -460,6 +464,9 @@ class SetList:
   def call(s,ex,o,m,args,kw,st):
     arr=st.heap[(o.id,'arr')]
     bag=st.heap.get((o.id,'bag'),False)
+    if m=='put': m='append'
+    if m=='get': m='pop'
+    if m=='empty': yield st,B(arr==EMPTY); return
     if m=='append':
       x=to_obj(args[0],st)
       if bag:           # duplicates allowed: the abstraction records which elements occur ('arr') and which may occur more than once ('multi')
@@ -502,6 +509,13 @@ def _sf_elems(s,args,st):
   o=args[0]
   if isinstance(o,Ref) and o.cls=='setlist': return SetV(st.heap[(o.id,'arr')],st.heap.get((o.id,'elem')))
   return SetV(setval(o,st)[0],None)
+def _sf_idof(s,args,st): return I(IDF(to_obj(args[0],st)))
+def _sf_unid(s,args,st): return Opq(UNID(as_int(args[0])),'obj')
+def _sf_fst(s,args,st): return I(Obj.ival(Obj.fst(to_obj(args[0],st))))
+def _sf_snd(s,args,st): return I(Obj.ival(Obj.snd(to_obj(args[0],st))))
+def _sf_isintpair(s,args,st):
+  t=to_obj(args[0],st); return B(z3.And(Obj.is_pair(t),Obj.is_ibox(Obj.fst(t)),Obj.is_ibox(Obj.snd(t))))
+SPEC_FUNS.update({'idof':_sf_idof,'unid':_sf_unid,'fst':_sf_fst,'snd':_sf_snd,'is_int_pair':_sf_isintpair})
 def _sf_dups(s,args,st):
   o=args[0]; return SetV(st.heap.get((o.id,'multi'),EMPTY),st.heap.get((o.id,'elem')))
 SPEC_FUNS.update({'card':_sf_card,'elems':_sf_elems,'dups':_sf_dups})
